@@ -315,6 +315,35 @@ def main(prop: str, tier: str, classes=None) -> int:
                 if float(ft["fitness"]) != float(sign * f(np.asarray([ft["phenotype"]]))[0]) or (cls not in (DifferentialEvolution, jDE, SHAGA) and float(ft["fitness"]) != best):
                     chk.fail("with n_jobs > 1 the reported best fitness is not the objective value of the reported phenotype",
                              dd, {"optimizer": cls.__name__, "clause": "best_parallel"})
+    if prop == "C01":
+        # an integer-valued objective beyond 2**53 (counts scaled by a large constant): the reported fitness is one of the values
+        # the objective returned, exactly, and the reported phenotype attains it (compared as Python integers)
+        from thefittest.optimizers import GeneticAlgorithm, SelfCGA, PDPGA
+        for cls in (GeneticAlgorithm, SelfCGA, PDPGA):
+            for mn in (False, True):
+                seen = []
+
+                def big(x, _seen=seen):
+                    v = (np.int64(2) ** 60 + np.sum(np.asarray(x, dtype=np.int64), axis=1) * np.int64(7)).astype(np.int64)
+                    _seen.extend(int(t) for t in v)
+                    return v
+                o = cls(fitness_function=big, iters=6, pop_size=10, str_len=16, minimization=mn, random_state=chk.seed + 41)
+                try:
+                    o.fit()
+                except Exception as e:  # noqa
+                    chk.fail("a run with an integer-valued objective raises", {"optimizer": cls.__name__, "minimization": mn, "error": repr(e)[:200]},
+                             {"optimizer": cls.__name__, "clause": "int_objective_raises"})
+                    continue
+                ft = o.get_fittest()
+                want = min(seen) if mn else max(seen)
+                got = int(ft["fitness"]) * (-1 if mn else 1)
+                own = int(big(np.asarray([ft["phenotype"]]))[0])
+                chk.count("int64_objective")
+                chk.case(("int64", cls.__name__, mn))
+                if got != want or own != want:
+                    chk.fail("the reported best fitness is not the best objective value ever evaluated (integer objective beyond 2**53, compared exactly)",
+                             {"optimizer": cls.__name__, "minimization": mn, "reported": got, "best_evaluated": want, "objective_of_reported_phenotype": own},
+                             {"optimizer": cls.__name__, "clause": "max_exact_int"})
     if prop == "C03":
         # budget accounting on the parallel evaluation path: every individual handed to the workers is counted once
         import c16_workers as W
